@@ -45,7 +45,7 @@ structure DSt where
   thr : List Thr                -- threads 0..3 (0 unused in `run`)
   bad : Bool := false
 
-def init0 : DSt := { st := init nSlots, seen := [], hooks := false, thr := List.replicate nThreads {} }
+def init0 : DSt := { st := init nTotal, seen := [], hooks := false, thr := List.replicate nThreads {} }
 
 def idxOf (l : List Nat) (x : Nat) : Option Nat :=
   let rec go (l : List Nat) (i : Nat) : Option Nat :=
@@ -54,11 +54,24 @@ def idxOf (l : List Nat) (x : Nat) : Option Nat :=
     | y :: r => if y = x then some i else go r (i + 1)
   go l 0
 
-def scanSeen (st : St) (seen : List Nat) : List Nat :=
+def scanVars (st : St) (seen : List Nat) : List Nat :=
   (List.range nVars).foldl (fun acc v =>
     match st.slots v with
     | .blk b => if acc.contains b then acc else acc ++ [b]
     | _ => acc) seen
+
+/-- payloads designated only by a handle embedded in another payload get their id after the variables,
+    in the order of the payload table -/
+partial def closeSeen (st : St) (seen : List Nat) (i : Nat) : List Nat :=
+  if i ≥ seen.length then seen
+  else
+    let b := seen.getD i 0
+    let seen' := match st.heap b, st.slots (embSlot b) with
+      | some blk, .blk c => if blk.tag == tagObj && !seen.contains c then seen ++ [c] else seen
+      | _, _ => seen
+    closeSeen st seen' (i + 1)
+
+def scanSeen (st : St) (seen : List Nat) : List Nat := closeSeen st (scanVars st seen) 0
 
 def handleTok (st : St) (seen : List Nat) (v : Nat) : String :=
   match st.slots v with
@@ -68,16 +81,22 @@ def handleTok (st : St) (seen : List Nat) (v : Nat) : String :=
     | some i => s!"b{i}"
     | none => "b?"
 
-def payloadTok (st : St) (i b : Nat) : String :=
+def payloadTok (st : St) (seen : List Nat) (i b : Nat) : String :=
+  let embTok (b : Nat) : String := match st.slots (embSlot b) with
+    | .blk c => (match idxOf seen c with | some k => s!"b{k}" | none => "b?")
+    | _ => "n"
   match st.heap b with
-  | some blk => if st.freed b = 0 then s!"{i}:L:{blk.ref}:{blk.tag}:{toHex blk.val}" else s!"{i}:X{st.freed b}"
+  | some blk =>
+    if st.freed b = 0 then
+      s!"{i}:L:{blk.ref}:{blk.tag}:{toHex blk.val}" ++ (if blk.tag == tagObj then ">" ++ embTok b else "")
+    else s!"{i}:X{st.freed b}"
   | none => if st.freed b = 1 then s!"{i}:F" else s!"{i}:X{st.freed b}"
 
 def liveCount (st : St) : Nat := ((List.range st.next).filter (fun b => (st.heap b).isSome)).length
 
 def obs (d : DSt) : String :=
   let hs := " ".intercalate ((List.range nVars).map (handleTok d.st d.seen))
-  let ps := " ".intercalate ((List.range d.seen.length).map (fun i => payloadTok d.st i (d.seen.getD i 0)))
+  let ps := " ".intercalate ((List.range d.seen.length).map (fun i => payloadTok d.st d.seen i (d.seen.getD i 0)))
   s!"{hs} | {if ps.isEmpty then "-" else ps} | live={liveCount d.st} bad={d.st.viol}"
 
 def kindBase (k : Nat) : Nat := 4 * k
@@ -120,6 +139,21 @@ def parseOp (ws : List String) : Option ApiOp :=
   | ["passign", d, s] => do pure (.pAssign (← idx 3 d) (← idx 3 s))
   | ["pclear", d] => do pure (.pClear (← idx 3 d))
   | ["pswap", a, b] => do pure (.pSwap (← idx 3 a) (← idx 3 b))
+  | ["praw", d, s] => do pure (.pAssign (← idx 3 d) (← idx 3 s))      -- operator=(C*) with the raw pointer of a managed object
+  | ["pctor", d, s] => do pure (.pCopy (← idx 3 d) (← idx 3 s))       -- Ptr(D*) from the raw pointer of a managed object
+  | ["plink", d, s] => do pure (.pLink (← idx 3 d) (← idx 3 s))
+  | ["pnext", d] => do pure (.pNext (← idx 3 d))
+  | ["pnextof", d, s] => do pure (.pNextOf (← idx 3 d) (← idx 3 s))
+  | ["sprepend", d, h] => do pure (.sPrepend (← idx 0 d) (← fromHex h))
+  | ["sresize", d, n] => do pure (.sResize (← idx 0 d) (← num n))
+  | ["sreplace", d, a, b] => do pure (.sEdit (← idx 0 d) 0 (← num a) (← num b))
+  | ["slower", d] => do pure (.sEdit (← idx 0 d) 1 0 0)
+  | ["schar", d] => do pure (.sEdit (← idx 0 d) 2 0 0)
+  | ["sprintf", d, x] => do pure (.sPrintf (← idx 0 d) (← num x))
+  | ["vpusha", d, x] => do pure (.vPushA (← idx 1 d) (← num x))
+  | ["vseta", d, x] => do pure (.vSetArr (← idx 1 d) (← num x))
+  | ["vputm", d, k, x] => do pure (.vPutM (← idx 1 d) (← num k) (← num x))
+  | ["vsetm", d, k, x] => do pure (.vSetMap (← idx 1 d) (← num k) (← num x))
   | _ => none
 
 /-! ### controlled interleaving -/
@@ -238,12 +272,30 @@ def giveTo (s : St) (v tid : Nat) : St :=
   | some s' => s'
   | none => s
 
+/-- static C++ typing of the harness: P0,P1 are `Ptr<Node>`, P2,P3 are `Ptr<Leaf>` (Leaf derives from Node):
+    a Leaf handle takes only Leaf handles, swap needs equal types; `resize` is exercised for shrinking only -/
+def wellTyped (st : St) (ws : List String) : Bool :=
+  let n (t : String) : Nat := t.toNat?.getD 0
+  match ws with
+  | [op, d, s] =>
+    if op == "pcopy" || op == "passign" || op == "praw" || op == "pctor" then n d < 2 || n s ≥ 2
+    else if op == "pswap" then (n d < 2) == (n s < 2)
+    else if op == "pnextof" then n d < 2
+    else if op == "sresize" then n s ≤ (viewVal st (n d)).length
+    else true
+  | [op, d] => if op == "pnext" then n d < 2 else true
+  | _ => true
+
 def stepLine (d : DSt) (ws : List String) : DSt × String :=
   match ws with
   | ["reset"] => (init0, obs init0)
   | ["end"] =>
     let s0 := (List.range nSlots).foldl (fun s v => giveTo s v 0) d.st
-    match runT s0 0 ((List.range nVars).flatMap rel) with
+    let fin := (List.range nVars).foldl (fun (acc : Option St) v =>
+      match acc with
+      | some s => runT s 0 (relP s v relFuel)
+      | none => none) (some s0)
+    match fin with
     | some s' => let d' := { d with st := s' }; (d', s!"end live={liveCount s'} bad={s'.viol}")
     | none => (d, "bad-op")
   | ["hooks", h] => ({ d with hooks := h == "1" }, "ok")
@@ -257,7 +309,7 @@ def stepLine (d : DSt) (ws : List String) : DSt × String :=
       else (d, "bad-op")
     | _, _ => (d, "bad-op")
   | "prog" :: tid :: rest =>
-    match tid.toNat?, parseOp rest with
+    match tid.toNat?, (if wellTyped d.st rest then parseOp rest else none) with
     | some tid, some op =>
       if 0 < tid ∧ tid < nThreads then
         let t := d.thr.getD tid {}
@@ -277,7 +329,7 @@ def stepLine (d : DSt) (ws : List String) : DSt × String :=
       else (d, "bad-op")
     | none => (d, "bad-op")
   | _ =>
-    match parseOp ws with
+    match (if wellTyped d.st ws then parseOp ws else none) with
     | none => (d, "bad-op")
     | some op =>
       match apiStep d.st 0 op with
